@@ -472,15 +472,36 @@ def char_truncations(rng, text, thorough):
 
 # --------------------------------------------------------------------------- run
 
+SIZE_LADDER = [63, 64, 127, 128, 129, 255, 256, 257, 999, 1000, 1001, 1023, 1024, 1025, 2047, 2048, 2049,
+               4095, 4096, 4097, 8191, 8192, 8193]
+LONG_FAULTS = [datetime.date(2020, 1, 2), datetime.datetime(2020, 1, 2, 3, 4), datetime.time(1, 2),
+               datetime.timedelta(hours=1), 2 ** 1024, -2 ** 1024, None, "abc", "", " ", "{0}", float("nan"), True,
+               "2020-01-02T00:00:00Z"]
+
+
+def encode_spec(sp):
+    import base64
+    import pickle
+    return base64.b64encode(pickle.dumps(sp, protocol=4)).decode("ascii")
+
+
+def decode_spec(txt):
+    import base64
+    import pickle
+    return pickle.loads(base64.b64decode(txt))
+
+
 def run(tier, seed, model_ok, translator, search=False):
     out = Outcome()
     out.rule = ("valid multi-block inputs x {truncation after every row; (text) after every character [quick: 60 sampled "
                 "positions]; every cell (and one appended cell) x fault alphabet [quick: 2 sampled faults per cell]; every "
                 "row deleted / duplicated / shortened / emptied} x routes {parse_blocks on native rows given as lists or as "
-                "tuples; read_csv on io.StringIO; read_csv on a file path; read_excel on a workbook with and without its "
-                "<dimension> record (sampled faults)} x {raising, collecting} tracker x output form x {default, lenient} "
-                "fixer. Non-trivial: the damaged input differs from the undamaged one; distinct by damaged input + "
-                "configuration. Base i is generated from (seed, i).")
+                "tuples; read_csv on io.StringIO; read_csv on a file path (also by relative path with the environment "
+                "changing mid-read); read_excel on a workbook with and without its <dimension> record (sampled faults)} x "
+                "{raising, collecting} tracker x output form x {default, lenient} fixer; plus LONG tables on a size ladder "
+                "(63..8193 rows, one much larger in thorough) with cell faults of every native type in long columns, native "
+                "grids and workbooks. Non-trivial: the damaged input differs from the undamaged one; distinct by damaged "
+                "input + configuration. Base i is generated from (seed, i); a failing case carries its full specification.")
     thorough = tier == "thorough"
     n_bases = 14 if thorough else (12 if search else 6)
     ops, pend = [], []
@@ -488,6 +509,7 @@ def run(tier, seed, model_ok, translator, search=False):
     try:
         for bi in range(n_bases):
             one_base(seed, bi, thorough, out, model_ok, ops, pend, tmpdir)
+        long_tables(seed, thorough, out, model_ok, ops, pend, tmpdir)
     finally:
         shutil.rmtree(tmpdir, ignore_errors=True)
     if model_ok and ops:
@@ -502,9 +524,14 @@ def run(tier, seed, model_ok, translator, search=False):
             got = {"blocks": impl["blocks"], "issues": impl["issues"], "ending": impl["ending"]}
             if want != got:
                 out.mismatch("pdtable vs Lean parseBlocks (ending / issues / blocks)", dict(case, tracker=tracker),
-                             {"ending": got["ending"], "issues": got["issues"], "blocks": got["blocks"]},
-                             {"ending": want["ending"], "issues": want["issues"], "blocks": want["blocks"]})
+                             {"ending": got["ending"], "issues": got["issues"], "blocks": trim_blocks(got["blocks"])},
+                             {"ending": want["ending"], "issues": want["issues"], "blocks": trim_blocks(want["blocks"])})
     return out
+
+
+def trim_blocks(blocks):
+    txt = repr(blocks)
+    return blocks if len(txt) < 4000 else txt[:4000] + " …"
 
 
 def transposed_line_rows(rows):
@@ -521,58 +548,109 @@ def transposed_line_rows(rows):
     return out
 
 
-def one_base(seed, bi, thorough, out, model_ok, ops, pend, tmpdir, only=None):
-    rng = make_rng(seed, f"C12:{bi}")
-    urows, layout = gen_base(rng)
-    utext = to_text(urows)
-    u = run_reader("native", urows, "pdtable", "collecting", None)
-    if u["issues"] or u["ending"] != "exhausted":
-        out.fail("a valid input was not read completely", {"seed": seed, "base": bi, "rows": grid_to_json(urows)},
-                 {"issues": u["issues"], "ending": u["ending"]}, None, key="valid_rejected")
-        return
-    trows = split_text(utext)                      # the undamaged rows as read_csv sees them
-    u_by_form = {}
-    prefix_cache = {}
-
-    def prefix_run(route, d, to):
-        key = (route, d, to)
-        if key not in prefix_cache:
-            base = trows if route == "text" else urows
-            prefix_cache[key] = run_reader("native", base[:d], to, "collecting", None)
-        return prefix_cache[key]
-
-    def u_run(route, to):
-        if (route, to) not in u_by_form:
-            base = trows if route == "text" else urows
-            u_by_form[(route, to)] = run_reader("native", base, to, "collecting", None)
-        return u_by_form[(route, to)]
-
-    def emit_model(case, drows, dtext, to, fixer_kind, trackers, res):
-        if not model_ok:
-            ext_for(drows, out)
-            return
-        ext = ext_for(drows, out)
+def run_spec(sp, out, model_ok, ops, pend, tmpdir, cache=None):
+    """one corrupted input, fully specified by `sp` (no randomness in here): run the real reader on the stated route
+    with the stated trackers, judge, queue the model ops. A failure carries `sp` so that it replays exactly."""
+    cache = {} if cache is None else cache
+    how, to, fixer_kind, trackers = sp["how"], sp["to"], sp["fixer_kind"], sp["trackers"]
+    uro, drows, dtext, shift = sp["urows"], sp["drows"], sp.get("dtext"), sp.get("shift")
+    n_files = cache.setdefault("n_files", [0])
+    path = None
+    if how.startswith("excel"):
+        n_files[0] += 1
+        path = write_xlsx(tmpdir, sp["xrows"], n_files[0], how.endswith("nodimension"))
+        drows = read_xlsx_rows(path)
+    small = sum(len(r) for r in drows) <= 600
+    case = dict(sp["case"], route=how, to=to, fixer=fixer_kind or "default",
+                rows=grid_to_json(drows) if small else {"n_rows": len(drows), "see": "spec"})
+    if dtext is not None:
+        case["text"] = dtext
+    out.evaluations += 1
+    if uro is None or drows != uro:
+        out.nontrivial.add(hash((repr(drows) if small else repr(sp["case"]), how, to, fixer_kind)))
+    if len(out.samples) < 4 and small and case.get("kind") in ("cell", "trunc_char") and case.get("index", 0) % 37 == 0:
+        out.samples.append(case)
+    out.count("route:" + how)
+    out.count("kind:" + str(case.get("kind")))
+    out.count("to:" + to)
+    out.count("fixer:" + (fixer_kind or "default"))
+    if sp.get("ladder"):
+        out.count("rows ladder:%d" % sp["ladder"])
+    res = {}
+    try:
+        for tr in trackers:
+            if how.startswith("file-env"):
+                n_files[0] += 1
+                fpath = write_text_file(tmpdir, dtext, n_files[0])
+                res[tr] = run_reader("file-env", (tmpdir, os.path.basename(fpath)), to, tr, fixer_kind,
+                                     env=how.split(":")[1], rows=drows)
+            elif how == "file":
+                n_files[0] += 1
+                fpath = write_text_file(tmpdir, dtext, n_files[0])
+                try:
+                    res[tr] = run_reader("file", fpath, to, tr, fixer_kind, rows=drows)
+                finally:
+                    os.remove(fpath)
+            elif how == "text":
+                res[tr] = run_reader("text", dtext, to, tr, fixer_kind, rows=drows)
+            elif how.startswith("excel"):
+                res[tr] = run_reader("excel", path, to, tr, fixer_kind, rows=drows)
+            elif how == "native-tuples":
+                res[tr] = run_reader("native", [tuple(r) for r in drows], to, tr, fixer_kind, rows=drows)
+            else:
+                res[tr] = run_reader("native", [list(r) for r in drows], to, tr, fixer_kind, rows=drows)
+            e = res[tr]["ending"]
+            out.count("ending:" + tr + ":" + (e if isinstance(e, str) else next(iter(e))))
+    finally:
+        if path is not None:
+            os.remove(path)
+    pr = ur = None
+    if uro is not None and fixer_kind is None and not how.startswith("excel"):
+        d = first_diff(uro, drows)
+        kp = ("prefix", sp["ukey"], d, to)
+        if kp not in cache:
+            cache[kp] = run_reader("native", uro[:d], to, "collecting", None)
+        pr = cache[kp]
+        ku = ("u", sp["ukey"], to)
+        if ku not in cache:
+            cache[ku] = run_reader("native", uro, to, "collecting", None)
+        ur = cache[ku]
+    n0 = len(out.failures)
+    judge(out, case, drows, uro, ur, res.get("raising"), res.get("collecting"), pr, shift if ur is not None else None, to)
+    for f in out.failures[n0:]:
+        f["input"]["spec"] = encode_spec(sp)
+    ext = ext_for(drows, out)
+    if model_ok and not sp.get("no_model"):
         for tr in trackers:
             if dtext is not None:
                 ops.append({"op": "read_csv_blocks", "text": dtext, "sep": ";", "to": to, "filter": None, "tracker": tr,
                             "fixer": rc.FIXERS[fixer_kind or "strict"], "ext": ext})
             else:
-                ops.append({"op": "parse_blocks", "rows": case["rows"], "to": to, "filter": None, "tracker": tr,
+                ops.append({"op": "parse_blocks", "rows": grid_to_json(drows), "to": to, "filter": None, "tracker": tr,
                             "fixer": rc.FIXERS[fixer_kind or "strict"], "ext": ext})
-            pend.append((case, tr, res[tr]))
+            mcase = case if small else dict(case, rows={"n_rows": len(drows)})
+            pend.append((mcase if dtext is None else dict(mcase, rows=grid_to_json(drows)), tr, res[tr]))
 
+
+def one_base(seed, bi, thorough, out, model_ok, ops, pend, tmpdir):
+    rng = make_rng(seed, f"C12:{bi}")
+    urows, layout = gen_base(rng)
+    utext = to_text(urows)
+    u = run_reader("native", urows, "pdtable", "collecting", None)
+    if u["issues"] or u["ending"] != "exhausted":
+        out.fail("a valid input was not read completely", {"seed": seed, "base": bi, "rows": grid_to_json(urows),
+                                                            "spec": encode_spec({"valid": urows})},
+                 {"issues": u["issues"], "ending": u["ending"]}, None, key="valid_rejected")
+        return
+    trows = split_text(utext)                      # the undamaged rows as read_csv sees them
+    cache = {}
     idx = 0
-    n_files = 0
     for route in ("native", "text"):
         gens = corruptions(rng, urows, thorough, native_ok=(route == "native"))
         if route == "text":
             gens = list(gens) + list(char_truncations(rng, utext, thorough))
         for kind, detail, drows, dtext, shift in gens:
             idx += 1
-            if only is not None and idx != only:
-                # keep the random stream aligned: the choices below are drawn for every case
-                rng.random(); rng.random(); rng.random(); rng.random()
-                continue
             r1, r2, r3, r4 = rng.random(), rng.random(), rng.random(), rng.random()
             to = "pdtable" if r1 < 0.7 else ("jsondata" if r1 < 0.9 else "cellgrid")
             fixer_kind = None if r2 < 0.85 else "lenient"
@@ -594,50 +672,11 @@ def one_base(seed, bi, thorough, out, model_ok, ops, pend, tmpdir, only=None):
                     how = "file-env:" + ["chdir", "unlink", "rename"][idx % 3]
             elif r4 < 0.5:
                 how = "native-tuples"                      # rows as tuples, as the Excel reader delivers them
-            case = {"seed": seed, "base": bi, "index": idx, "route": how, "kind": kind, "detail": detail, "to": to,
-                    "fixer": fixer_kind or "default", "rows": grid_to_json(drows)}
-            if route == "text":
-                case["text"] = dtext
-            out.evaluations += 1
-            if drows != (trows if route == "text" else urows):
-                out.nontrivial.add(hash((repr(drows), how, to, fixer_kind)))
-            if len(out.samples) < 4 and kind in ("cell", "trunc_char") and idx % 37 == 0:
-                out.samples.append(case)
-            out.count("route:" + how)
-            out.count("kind:" + kind)
-            out.count("to:" + to)
-            out.count("fixer:" + (fixer_kind or "default"))
-            if how == "file":
-                n_files += 1
-                payload = write_text_file(tmpdir, dtext, n_files)
-            elif how.startswith("file-env"):
-                payload = None
-            elif how == "text":
-                payload = dtext
-            elif how == "native-tuples":
-                payload = [tuple(r) for r in drows]
-            else:
-                payload = [list(r) for r in drows]
-            res = {}
-            for tr in trackers:
-                if how.startswith("file-env"):
-                    n_files += 1
-                    path = write_text_file(tmpdir, dtext, n_files)
-                    res[tr] = run_reader("file-env", (tmpdir, os.path.basename(path)), to, tr, fixer_kind,
-                                         env=how.split(":")[1], rows=drows)
-                else:
-                    res[tr] = run_reader({"native-tuples": "native"}.get(how, how), payload, to, tr, fixer_kind,
-                                         rows=drows)
-                e = res[tr]["ending"]
-                out.count("ending:" + tr + ":" + (e if isinstance(e, str) else next(iter(e))))
-            if how == "file":
-                os.remove(payload)
-            uro = trows if route == "text" else urows
-            d = first_diff(uro, drows)
-            pr = prefix_run(route, d, to) if fixer_kind is None else None
-            ur = u_run(route, to) if fixer_kind is None else None
-            judge(out, case, drows, uro, ur, res.get("raising"), res.get("collecting"), pr, shift, to)
-            emit_model(case, drows, dtext if route == "text" else None, to, fixer_kind, trackers, res)
+            sp = {"how": how, "to": to, "fixer_kind": fixer_kind, "trackers": trackers,
+                  "urows": trows if route == "text" else urows, "ukey": (bi, route), "drows": drows,
+                  "dtext": dtext if route == "text" else None, "shift": shift,
+                  "case": {"seed": seed, "base": bi, "index": idx, "kind": kind, "detail": detail}}
+            run_spec(sp, out, model_ok, ops, pend, tmpdir, cache)
 
     # ---- Excel route: the undamaged input and sampled storable faults, each as a workbook with and without its
     # <dimension> record (without it the read-only reader yields ragged tuple rows)
@@ -652,29 +691,53 @@ def one_base(seed, bi, thorough, out, model_ok, ops, pend, tmpdir, only=None):
         for strip in (False, True):
             idx += 1
             to = xrng.choice(["pdtable", "pdtable", "jsondata", "cellgrid"])
-            if only is not None and idx != only:
-                continue
-            n_files += 1
-            path = write_xlsx(tmpdir, xrows, n_files, strip)
-            try:
-                drows = read_xlsx_rows(path)
-                case = {"seed": seed, "base": bi, "index": idx, "route": "excel" + ("-nodimension" if strip else ""),
-                        "kind": kind, "detail": detail, "to": to, "fixer": "default", "rows": grid_to_json(drows)}
-                out.evaluations += 1
-                out.nontrivial.add(hash((repr(drows), "excel", strip, to)))
-                out.count("route:" + case["route"])
-                out.count("kind:" + kind)
-                if len({len(r) for r in drows}) > 1:
-                    out.count("excel: ragged rows")
-                res = {}
-                for tr in ("raising", "collecting"):
-                    res[tr] = run_reader("excel", path, to, tr, None, rows=drows)
-                    e = res[tr]["ending"]
-                    out.count("ending:" + tr + ":" + (e if isinstance(e, str) else next(iter(e))))
-            finally:
-                os.remove(path)
-            judge(out, case, drows, None, None, res["raising"], res["collecting"], None, None, to)
-            emit_model(case, drows, None, to, None, ["raising", "collecting"], res)
+            sp = {"how": "excel" + ("-nodimension" if strip else ""), "to": to, "fixer_kind": None,
+                  "trackers": ["raising", "collecting"], "urows": None, "ukey": None, "drows": None, "xrows": xrows,
+                  "shift": None, "case": {"seed": seed, "base": bi, "index": idx, "kind": kind, "detail": detail}}
+            run_spec(sp, out, model_ok, ops, pend, tmpdir, cache)
+
+
+def long_base(rng, n):
+    """a valid input whose first table has `n` value rows (numeric, text and onoff columns), followed by a small table"""
+    kinds = ["num", rng.choice(["num", "text"]), rng.choice(["num", "onoff"])]
+    cyc = {"num": ["0", "1.5", "-1", "1e3", "nan", "-", " 7 "], "text": ["a", "b c", "-"], "onoff": ["0", "1", "true"]}
+    rows = [["**long"], ["all"], ["a", "b", "c"], [UNITS[k][0] for k in kinds]]
+    rows += [[cyc[k][(i + 3 * j) % len(cyc[k])] for j, k in enumerate(kinds)] for i in range(n)]
+    rows += [[], ["**tail"], ["all"], ["x"], ["-"], ["1"], []]
+    return rows, kinds
+
+
+def long_tables(seed, thorough, out, model_ok, ops, pend, tmpdir):
+    """the corruption operators on LONG columns: a size ladder of value rows, a cell of a long numeric column replaced by
+    a fault of every native type; native grids (lists / tuples) and workbooks"""
+    rng = make_rng(seed, "C12:long")
+    if thorough:
+        ladder = SIZE_LADDER + [20011]
+    else:
+        ladder = sorted(set(rng.sample(SIZE_LADDER, 5) + [1000, 1025, 4097, 8193]))
+    cache = {}
+    for n in ladder:
+        urows, kinds = long_base(rng, n)
+        numcols = [j for j, k in enumerate(kinds) if k == "num" and j > 0] or [0]
+        faults = LONG_FAULTS if thorough else rng.sample(LONG_FAULTS, 3)
+        for fi, ft in enumerate(faults):
+            i = 4 + rng.choice([0, n // 2, n - 1])
+            j = rng.choice(numcols)
+            drows = [list(r) for r in urows]
+            drows[i][j] = ft
+            how = rng.choice(["native", "native-tuples"])
+            to = rng.choice(["pdtable", "pdtable", "jsondata"])
+            sp = {"how": how, "to": to, "fixer_kind": None if rng.random() < 0.8 else "lenient",
+                  "trackers": ["raising", "collecting"], "urows": urows, "ukey": ("long", n), "drows": drows,
+                  "dtext": None, "shift": 0, "ladder": n, "no_model": n > 1100 and not (fi == 0 and n in (4097, 8193)),
+                  "case": {"seed": seed, "stream": "long", "n_rows": n, "index": fi, "kind": "cell",
+                           "detail": (i, j, repr(ft)[:40])}}
+            run_spec(sp, out, model_ok, ops, pend, tmpdir, cache)
+            if excel_storable(ft) and n in (1000, 1001, 1025) and fi < 2:
+                sp = dict(sp, how="excel", urows=None, ukey=None, drows=None, xrows=drows, shift=None, no_model=False,
+                          case=dict(sp["case"], stream="long-excel"))
+                run_spec(sp, out, model_ok, ops, pend, tmpdir, cache)
+        cache.clear()
 
 
 def replay(rep):
@@ -683,18 +746,43 @@ def replay(rep):
         e = rc.ext_tables([[inp["string"]]])
         bad = [v for v in e["dts"].values() if isinstance(v, dict) and "raises" in v]
         return (not bad), ("to_datetime raises " + str(bad) if bad else "to_datetime fails only with ValueError here")
-    if "base" not in inp or "index" not in inp:
-        return False, "replay file has no input (no-failing-input-found): " + str(rep.get("broken"))[:300]
-    seed = int(inp.get("seed", rep.get("seed", 0)))
-    o = Outcome()
     tmpdir = tempfile.mkdtemp(prefix="c12-")
     try:
-        for thorough in (False, True):
-            o = Outcome()
-            one_base(seed, int(inp["base"]), thorough, o, False, [], [], tmpdir, only=int(inp["index"]))
-            hit = [f for f in o.failures if f["input"].get("rows") == inp.get("rows")]
-            if hit:
-                return False, hit[0]["what"]
+        o = Outcome()
+        if "spec" in inp:
+            sp = decode_spec(inp["spec"])
+            if "valid" in sp:
+                u = run_reader("native", sp["valid"], "pdtable", "collecting", None)
+                ok = not u["issues"] and u["ending"] == "exhausted"
+                return ok, "the valid input is read completely" if ok else "a valid input was not read completely"
+            run_spec(sp, o, False, [], [], tmpdir)
+        elif "rows" in inp and isinstance(inp["rows"], list):
+            # an entry written before failures carried their specification: re-judge the damaged rows on their own
+            drows = rows_from_json(inp["rows"])
+            how = {"text": "text", "file": "file"}.get(str(inp.get("route")), "native")
+            sp = {"how": how if "text" in inp else "native", "to": inp.get("to", "pdtable"),
+                  "fixer_kind": None if inp.get("fixer", "default") == "default" else inp.get("fixer"),
+                  "trackers": ["raising", "collecting"], "urows": None, "ukey": None, "drows": drows,
+                  "dtext": inp.get("text"), "shift": None, "case": {"kind": inp.get("kind")}}
+            run_spec(sp, o, False, [], [], tmpdir)
+        else:
+            return False, "replay file has no input (no-failing-input-found): " + str(rep.get("broken"))[:300]
+        if o.failures:
+            return False, o.failures[0]["what"]
+        return True, "property holds on this input"
     finally:
         shutil.rmtree(tmpdir, ignore_errors=True)
-    return True, "property holds on this input (case regenerated from seed, base and index)"
+
+
+def rows_from_json(rows):
+    def cell(c):
+        if isinstance(c, dict):
+            if "i" in c:
+                return int(c["i"])
+            if "f" in c:
+                return float(c["f"])
+            if "d" in c:
+                return datetime.datetime.fromisoformat(c["d"])
+            return datetime.time(1, 2)                     # an opaque native cell
+        return c
+    return [[cell(c) for c in r] for r in rows]
